@@ -58,14 +58,23 @@ func (rp *RuleParser) ParseVariables(vars string) error {
 			// if next variable or end
 			// if regex we ignore |
 			// we wont support pipe for xpath, maybe later
+			if (curr == 2 && (c != '/' || isEscaped)) || (curr == 1 && len(curKey) == 0 && (c == '/' || c == '\'')) {
+				// the input ended inside the regex
+				return fmt.Errorf("unterminated regex key: %q", string(curKey))
+			}
+			if c == '|' && i+1 >= len(vars) {
+				return fmt.Errorf("missing variable after the last separator: %q", vars)
+			}
 			if c != '|' {
 				// we don't want to miss the last character
 				if curr == 0 {
 					curVar = append(curVar, c)
-				} else if curr != 2 && c != '/' {
-					// we don't want the last slash if it's a regex
+				} else if curr != 2 {
 					curKey = append(curKey, c)
 				}
+			}
+			if curr == 1 && len(curKey) == 0 {
+				return fmt.Errorf("empty key for variable %q", string(curVar))
 			}
 			v, err := variables.Parse(string(curVar))
 			if err != nil {
@@ -76,17 +85,21 @@ func (rp *RuleParser) ParseVariables(vars string) error {
 			}
 			// fmt.Printf("(PREVIOUS %s) %s:%s (%t %t)\n", vars, curvar, curkey, iscount, isnegation)
 			if isquoted {
-				// if it is quoted we remove the last quote
-				if len(vars) <= i+1 || vars[i+1] != '\'' {
-					if vars[i] != '\'' {
-						// TODO fix here
-						return fmt.Errorf("unclosed quote: %q", string(curKey))
-					}
+				// a quoted key is a quoted regex: the closing slash is followed by the closing quote
+				if curr != 2 || len(vars) <= i+1 || vars[i+1] != '\'' {
+					return fmt.Errorf("unclosed quote: %q", string(curKey))
 				}
-				// we skip one additional character
+				if len(vars) > i+2 && (vars[i+2] != '|' || len(vars) == i+3) {
+					return fmt.Errorf("unexpected %q after the quoted regex key %q", vars[i+2], string(curKey))
+				}
+				// we skip the quote and the separator
 				i += 2
 				isquoted = false
 			} else if curr == 2 {
+				if len(vars) > i+1 && (vars[i+1] != '|' || len(vars) == i+2) {
+					return fmt.Errorf("unexpected %q after the regex key %q", vars[i+1], string(curKey))
+				}
+				// we skip the separator
 				i++
 			}
 
@@ -113,10 +126,16 @@ func (rp *RuleParser) ParseVariables(vars string) error {
 		switch curr {
 		case 0:
 			switch c {
-			case '!':
-				isNegation = true
-			case '&':
-				isCount = true
+			case '!', '&':
+				// only as the first character of a variable
+				if len(curVar) > 0 || isNegation || isCount {
+					return fmt.Errorf("unexpected %q in variable %q", c, string(curVar))
+				}
+				if c == '!' {
+					isNegation = true
+				} else {
+					isCount = true
+				}
 			case ':':
 				curr = 1
 			default:
@@ -128,12 +147,14 @@ func (rp *RuleParser) ParseVariables(vars string) error {
 				// We are starting a XPATH
 				curr = 3
 				curKey = append(curKey, c)
-			case c == '/':
+			case c == '/' && len(curKey) == 0:
 				// We are starting a regex
 				curr = 2
-			case c == '\'':
-				// we start a quoted regex
-				// we go back to the loop to find /
+			case c == '\'' && len(curKey) == 0:
+				// we start a quoted regex, a / must follow
+				if isquoted || i+1 >= len(vars) || vars[i+1] != '/' {
+					return fmt.Errorf("a quoted key must be a regex: %q", vars)
+				}
 				isquoted = true
 			default:
 				curKey = append(curKey, c)
